@@ -1258,17 +1258,35 @@ func radixFits(env *tabEnv, call *ssa.Call, tables []string, spec *setsSpec) (bo
 	if tphi == nil {
 		return false, "radix varies but the digit table does not vary with it"
 	}
-	for i, e := range rphi.Edges {
-		k, ok := constInt(e)
-		if !ok {
+	// the two choices are made together: edge by edge (and through nested choices, block by block) a constant radix
+	// stands beside its table
+	seen := map[*ssa.Phi]bool{}
+	var pairs func(r, t ssa.Value) (bool, string)
+	pairs = func(r, t ssa.Value) (bool, string) {
+		if k, ok := constInt(r); ok {
+			name, ok := bitsetGlobal(t)
+			if !ok || byRadix[k] != name {
+				return false, fmt.Sprintf("radix %d is paired with digit table %q, want %q", k, name, byRadix[k])
+			}
+			return true, ""
+		}
+		rp, ok1 := r.(*ssa.Phi)
+		tp, ok2 := t.(*ssa.Phi)
+		if !ok1 || !ok2 || rp.Block() != tp.Block() || len(rp.Edges) != len(tp.Edges) {
 			return false, "radix edge is not a constant"
 		}
-		name, ok := bitsetGlobal(tphi.Edges[i])
-		if !ok || byRadix[k] != name {
-			return false, fmt.Sprintf("radix %d is paired with digit table %q, want %q", k, name, byRadix[k])
+		if seen[rp] {
+			return true, ""
 		}
+		seen[rp] = true
+		for i := range rp.Edges {
+			if ok, why := pairs(rp.Edges[i], tp.Edges[i]); !ok {
+				return false, why
+			}
+		}
+		return true, ""
 	}
-	return true, ""
+	return pairs(rphi, tphi)
 }
 
 // portBufferDigitsOnly: the buffer converted by strconv.Atoi in the port state only ever receives code points that
